@@ -23,6 +23,7 @@ M = [
  ("min-clamp-removed", "stg-utg.go", "		pdu_release_number := stgutg.Min(pdu_establishment_number,\n			c.Configuration.Test_ue_pdu_release)", "		pdu_release_number := c.Configuration.Test_ue_pdu_release", ["C02"]),
  ("release-loop-index0", "stg-utg.go", "			stgutg.ReleasePDU(c.Configuration.SST,\n				c.Configuration.SD,\n				ueList[i],\n				conn)", "			stgutg.ReleasePDU(c.Configuration.SST,\n				c.Configuration.SD,\n				ueList[0],\n				conn)", ["C02"]),
  ("service-resets-ulcount", "src/stgutg/service.go", "	pdu = nasTestpacket.GetServiceRequest(nasMessage.ServiceTypeData)\n", "	pdu = nasTestpacket.GetServiceRequest(nasMessage.ServiceTypeData)\n	ue.ULCount.Set(0, 0)\n", ["C02"]),
+ ("establish-read-again-while-buffer-full", "src/stgutg/pdu.go", "	n, err := conn.Read(recvMsg)\n	ManageError(\"Error establishing PDU\", err)\n\n	msg, err := ngap.Decoder(recvMsg[:n])", "	n, err := conn.Read(recvMsg)\n	ManageError(\"Error establishing PDU\", err)\n	for n == len(recvMsg) {\n		more := make([]byte, 2048)\n		m, err := conn.Read(more)\n		ManageError(\"Error establishing PDU\", err)\n		recvMsg = append(recvMsg, more[:m]...)\n		n += m\n	}\n\n	msg, err := ngap.Decoder(recvMsg[:n])", ["C02"]),
  ("teid-plus-one", "src/stgutg/pdu.go", "			teid = binary.BigEndian.Uint32(UPTransportLayerInfo[UPTrasportLayerInfoLength-4:])", "			teid = binary.BigEndian.Uint32(UPTransportLayerInfo[UPTrasportLayerInfoLength-4:]) + 1", ["C12", "C02"]),
  # C03 / C04 / C14 (aper)
  ("constraint-255-lt", "src/free5gclib/aper/marshal.go", "	if valueRange <= 255 {\n		if valueRange < 0 {\n			err = fmt.Errorf(\"Value range is negative\")\n			return\n		}\n		var i uint\n		// 1 ~ 8 bits\n		for i = 1; i <= 8; i++ {\n			upper := 1 << i\n			if int64(upper) >= valueRange {\n				break\n			}\n		}\n		err = pd.putBitsValue(value, i)", "	if valueRange < 255 {\n		if valueRange < 0 {\n			err = fmt.Errorf(\"Value range is negative\")\n			return\n		}\n		var i uint\n		// 1 ~ 8 bits\n		for i = 1; i <= 8; i++ {\n			upper := 1 << i\n			if int64(upper) >= valueRange {\n				break\n			}\n		}\n		err = pd.putBitsValue(value, i)", ["C03", "C04"]),
